@@ -1,5 +1,5 @@
 """Property -> rules registry."""
-from .rules import kernel, incr, rot, sched, meas, integrator
+from .rules import kernel, incr, rot, sched, meas, integrator, kal
 
 PROPS = {
     'C01': dict(
@@ -93,6 +93,24 @@ PROPS = {
                  'down / VD rows of the 2-D output transform are identically zero (zero reported '
                  'sd in both filters)', 'position / NED-velocity models return 2 rows'],
         undecided=['nothing further: the statement is structural']),
+    'C07': dict(
+        rules=[kal.kal_rules],
+        decided=['gain == P H^T S^-1 with S == H P H^T + R and state update == x + K (z - H x) '
+                 '(non-commutative normal form, all inputs)',
+                 'covariance is the Joseph form, each summand a congruence of P or R (symmetric '
+                 'PSD by construction)',
+                 'innovation is the residual whitened by the lower factor of that same S; one '
+                 'triangle used consistently'],
+        undecided=['floating-point equality with the information form', 'order independence '
+                   'and "never larger than the prior" as numerical facts (they follow '
+                   'algebraically)', 'inputs not modified: decided under C19 (PUR-ARG)']),
+    'C08': dict(
+        rules=[kal.vl_rules, kal.q_psd],
+        decided=['Van Loan block layout and transposition: expm([[F, Q],[0, -F^T]] dt), returns '
+                 '(E00, E01 E00^T)', 'process noise at the call site is G diag(q^2) G^T',
+                 'step passed equals the interval of the averaged states'],
+        undecided=['exactness of scipy.linalg.expm', 'symmetry/PSD of the computed product in '
+                   'floating point', 'composition over partitions (numerical)']),
 }
 
 
